@@ -8,7 +8,7 @@ import (
 var (
 	srcPool  = []uint32{0x03030303, 0x04040404, PeerIP}
 	nhExtra  = uint32(0x09090909)
-	commPool = [][]uint32{nil, {}, {100}, {100, 200}, {200}, {NoExport}, {NoAdv}, {100, NoExport}}
+	commPool = [][]uint32{nil, {}, {100}, {100, 200}, {200}, {NoExport}, {NoAdv}, {100, NoExport}, {NoExport, NoAdv}, {NoAdv, NoExport}, {NoExport, 100, NoAdv}}
 	clPool   = [][]uint32{nil, {}, {5}, {5, 6}}
 	asPool   = [][]Seg{
 		{{true, []uint32{65001}}},
@@ -80,7 +80,7 @@ func GenPath(r *hx.RNG, o GenOpts) PS {
 	p.CL, p.CLNil = append([]uint32{}, cl...), cl == nil
 	ci := r.Intn(5)
 	if r.Chance(o.BadComm) {
-		ci = 5 + r.Intn(3)
+		ci = 5 + r.Intn(6)
 	}
 	cs := commPool[ci]
 	p.Comms, p.CommsNil = append([]uint32{}, cs...), cs == nil
